@@ -264,7 +264,10 @@ def render(cfg, rnd):
             defined = (s["origin"] == "user" and s["start"]["k"] == "lit" and 0 <= s["start"]["v"] <= 65535 and not (s["pc"]["on"] and not 0 <= s["pc"]["v"] <= 65535)) \
                 or (s["origin"] == "bank" and s["name"] not in bad_size)
             if defined and s["origin"] != "default" and rnd.random() < 0.5:
-                blocks.append(('.segment "%s" { %s}' % (s["name"], rnd.choice(["", "* = $%04x " % rnd.randrange(0x100, 0xff00)])), s["name"]))
+                # (`* =' names the address the code runs at: for a relocated segment the storage position plus the relocation distance)
+                sp = rnd.randrange(0x100, 0xff00)
+                tp = sp + ((s["pc"]["v"] - s["start"]["v"]) if s["pc"]["on"] else 0)
+                blocks.append(('.segment "%s" { %s}' % (s["name"], rnd.choice(["", "* = $%04x " % tp if 0 <= tp <= 0xffff else ""])), s["name"]))
             continue
         if s["origin"] == "default":
             blocks.append("* = $%04x\n%s" % (s["start"]["v"], _bytes(bs)))
